@@ -61,7 +61,8 @@ def run(tier, seed, replay):
     procs = vlib.NCPU
     calls = 2_000_000 if tier == "quick" else 60_000_000
     def one(i):
-        return vlib.vh_json(["fuzz", str(seed * 1000 + i), str(calls)], timeout=7200)
+        # every second process runs with a Trace-level logger that formats each record (the arguments of the code's log statements are evaluated)
+        return vlib.vh_json(["fuzz", str(seed * 1000 + i), str(calls)], timeout=7200, env={"VH_TRACE_LOG": "1" if i % 2 else "0"})
     with ThreadPoolExecutor(max_workers=procs) as ex:
         outs = list(ex.map(one, range(procs)))
     total = sum(o["calls"] for o in outs)
